@@ -115,3 +115,32 @@ def library_models(desc):
 
 
 W_PALETTE = [F(0), F(1, 10), F(1, 3), F(1, 2), F(1), F(2), F(3), F(7), F(10), F(100)]
+
+
+# ------------------------------------------------------------------ ladder families (larger state dimension)
+LADDERS = [("V", "R", "C"), ("V", "L", "C"), ("I", "C", "R"), ("V", "L", "R"), ("I", "R", "L"), ("V", "C", "R")]
+W_PALETTE_LONG = W_PALETTE + [F(1, 5), F(3, 4), F(3, 2), F(5), F(13), F(30)]
+
+
+def ladder(src, ser, shu, nsec, scheme="asc", flip=False, ground_idx=0, termination=True):
+    """source between node 1 and node 0, nsec sections of (series element k+1 -> k+2, shunt element k+2 -> 0), resistive termination"""
+    items = [(src, 1, 0)]
+    for k in range(nsec):
+        items.append((ser, k + 1, k + 2))
+        items.append((shu, k + 2, 0))
+    if termination:
+        items.append(("R", nsec + 1, 0))
+    names = ["e%02d" % k for k in range(len(items))]
+    if scheme == "desc":
+        names = list(reversed(names))
+    elif scheme == "mix":
+        names = [("z%02d" if k % 2 else "A%02d") % k for k in range(len(items))]
+    labels = ["0", "1", "2", "3", "4", "5", "6", "7", "8", "9"]
+    comps = []
+    for k, (kn, a, b_) in enumerate(items):
+        n1, n2 = labels[a], labels[b_]
+        if flip and k % 2 == 1:
+            n1, n2 = n2, n1
+        comps.append(comp(kn, names[k], n1, n2, k % 12))
+    comps.append(["ground", "gnd", [labels[ground_idx]], {}])
+    return {"components": comps}
